@@ -65,6 +65,12 @@ def class_specs() -> Tuple[List[dict], Dict[str, int], List[int]]:
     for L in range(1, 4):
         add(f"VM_SA_{L}", "data", [["g0", ["Uint8"]], ["st", ["Struct", 0]], ["sa", ["StructArray", 0, L]],
                                    ["sb", ["StructArray", 1, L]], ["nest", ["Struct", 2]], ["g1", ["Uint8"]]])
+    # array fields of the same kind under different names (array-object-to-array-field assignment)
+    pairs = [("p", ["IntArray", "Int16", 4]), ("d", ["FloatArray", "Double", 3]), ("f", ["FloatArray", "Float", 2]),
+             ("b", ["ByteArray", 4]), ("u", ["IntArray", "Uint32", 2])]
+    add("VM_AA", "data", [["g0", ["Uint8"]]] + [[pre + sfx, ts] for pre, ts in pairs for sfx in ("pos", "target")] + [["g1", ["Uint8"]]])
+    add("VM_AB", "data", [[pre + sfx, ts] for pre, ts in pairs for sfx in ("target", "pos")])      # other type, has <x>target
+    add("VM_AC", "data", [["h", ["Int32"]]] + [[pre + "pos", ts] for pre, ts in pairs])             # other type, no <x>target
     # Char leaves at top level, in a nested struct and in a struct-array element (refused-assignment atomicity)
     add("VS_C", "struct", [["ch", ["Char"]], ["n", ["Int8"]]])
     add("VM_CH", "data", [["g0", ["Uint8"]], ["c", ["Char"]], ["st", ["Struct", idx["VS_C"]]],
@@ -262,6 +268,24 @@ def gen_ops(L: Layouts, idx: Dict[str, int], rng: random.Random, tier: str) -> L
             op("VM_SCALARS", fn, v, tag="scalar", mode=1)
             op("VM_SCALARS", fn, v, tag="scalar", mode=2)
             op("VM_SCALARS", fn, v, enabled=False, tag="scalar-off")
+    # the VALUE is the bound array object of ANOTHER field: same message, another instance (same / other field name),
+    # another message type with / without a field of the destination's name
+    for pre in ("p", "d", "f", "b", "u"):
+        tgt, src = pre + "target", pre + "pos"
+        for rep in range(3):
+            rnd = lambda c: ([rng.randrange(256) for _ in range(L.size(idx[c]))] if pre in ("p", "b", "u")
+                             else [b for _ in range(L.size(idx[c]) // 4 + 1) for b in (rng.randrange(256), rng.randrange(256), rng.randrange(100), 0x3F)][:L.size(idx[c])])
+            for en in (True, False):
+                ia = len(ops)
+                op("VM_AA", tgt, V_none(), tag="arr-field-to-field", mode=2, enabled=en)
+                o = ops[ia]
+                v = V_arr(idx["VM_AA"], src, list(bytes.fromhex(o["init"])), same_msg=True)   # m.target = m.pos
+                o["val"], o["_val"] = val_json(v), v
+                for donor, dfield in (("VM_AA", src), ("VM_AA", tgt), ("VM_AB", src), ("VM_AC", src), ("VM_AB", tgt)):
+                    op("VM_AA", tgt, V_arr(idx[donor], dfield, rnd(donor)), tag="arr-field-to-field", mode=2, enabled=en)
+        # wrong kind / wrong length sources are refused
+        other = {"p": "upos", "d": "fpos", "f": "dpos", "b": "ppos", "u": "ppos"}[pre]
+        op("VM_AA", tgt, V_arr(idx["VM_AB"], other, [1] * L.size(idx["VM_AB"])), tag="arr-field-to-field", mode=1)
     # Char fields holding a non-NUL value, refused and accepted values, at every nesting
     cvals = [V_str(""), V_str("ab"), V_str("abc"), V_str("é"), V_str("\x80"), V_int(5), V_none(), V_bytes(b""), V_bytes(b"a"),
              V_float(1.0), V_bool(True), V_list([V_str("a")]), V_list([]), V_cinst("Uint8", [65]), V_cinst("Int8", [65]),
@@ -496,6 +520,11 @@ def seq_items(v, L: Layouts) -> Optional[list]:
         return [V_int(b) for b in v[1]]
     if t == "str":
         return [("str", [c]) for c in v[1]]
+    if t == "arr":
+        ts2, off, size = L.fld(v[1], v[2])
+        kind = "Uint8" if ts2[0] == "ByteArray" else ts2[1]
+        n = ts2[1] if ts2[0] == "ByteArray" else ts2[2]
+        return seq_items(("carr", CTYPE[kind][0], CTYPE[kind][1], n, v[3][off:off + size]), L)
     if t == "carr":
         ck, cw, n, raw = v[1], v[2], v[3], v[4]
         out = []
@@ -617,8 +646,6 @@ def expected_rb(ts, key, v, L: Layouts) -> Optional[list]:
             if e is None:
                 return None
             return [4, 1, e[1]] if k == "ByteArray" else e
-        if v[0] == "arr":
-            return None
         if k == "ByteArray" and v[0] == "bytes":
             return [4, len(v[1])] + v[1]
         items = seq_items(v, L)
